@@ -169,4 +169,5 @@ def lemma_counts(qual, expected, root_depth=3):
             for ob in ex.obligations:
                 vcs.append(("block%d.%s" % (bi, ob.name.split(".")[-1]), list(ob.pc), ob.goal))
         return vcs
+    run.target = qual
     return run
